@@ -40,7 +40,7 @@ def pre(rep):
         rep.violation({"property": "C15", "broken_tie": "tools/globalwrites does not build", "log_tail": out[-2000:]},
                       name="globalwrites-build", no_input=True)
         return {"coverage": cov}
-    rc, out = corr.sh([GW_BIN, "-repo", corr.REPO, "-allow", os.path.join(GW_DIR, "allow.txt"),
+    rc, out = corr.sh([GW_BIN, "-repo", corr.REPO, "-gomod", os.path.join(ROOT, "go"), "-allow", os.path.join(GW_DIR, "allow.txt"),
                        "-coq", GW_COQ, "-json", GW_JSON], timeout=600)
     if rc != 0:
         rep.violation({"property": "C15", "broken_tie": "tools/globalwrites failed on /repo's working tree (does not parse?)",
@@ -48,9 +48,20 @@ def pre(rep):
         return {"coverage": cov}
     gw = json.load(open(GW_JSON))
     bad = gw.get("not_allowed") or []
+    bad_esc = gw.get("escapes_not_allowed") or []
+    bad_t = gw.get("tbaa_not_allowed") or []
+    bad_m = gw.get("map_ranges_not_allowed") or []
     cov["global_write_inventory"] = {"package_level_vars": gw["globals"], "write_sites_outside_init": gw["writes"],
-                                     "allow_list_lines": gw["allow_lines"], "not_allowed": len(bad),
+                                     "of_which_through_a_local_alias": gw.get("alias_writes"),
+                                     "vars_of_reference_carrying_type": gw.get("ref_globals"),
+                                     "escaping_globals": gw.get("escaping_globals"), "escape_sites": gw.get("escape_sites"),
+                                     "stores_into_types_reachable_from_globals": gw.get("tbaa_writes"),
+                                     "map_ranges_outside_init": gw.get("map_ranges"),
+                                     "allow_list_lines": gw["allow_lines"],
+                                     "not_allowed": len(bad) + len(bad_esc) + len(bad_t) + len(bad_m),
                                      "unused_allow_lines": gw.get("unused_allow_lines") or []}
+    if gw.get("type_errors"):
+        cov["global_write_inventory"]["type_errors_in_module"] = gw["type_errors"][:5]
 
     multi = gw.get("resume_stack_not_single_key") or []
     cov["global_write_inventory"]["resume_stack_constructions"] = gw.get("resume_stack_constructions")
@@ -64,22 +75,49 @@ def pre(rep):
 
     # report the uncovered sites at the end, when we know whether the runtime
     # streams (concurrent / history / race) produced a concrete failing input
-    if bad:
+    if bad or bad_esc or bad_t or bad_m:
         orig_finish = rep.finish
 
         def finish(level, coverage, assumptions):
             runtime = [p for p in rep.violations]
+            replay = "cd /verif/tools/globalwrites && go run . -repo /repo -allow allow.txt"
+
+            def site(w):
+                return "%s:%d" % (w["file"], w["line"])
             for w in bad[:6]:
                 rep.violation({"property": "C15",
-                               "broken": "write to a package-level variable outside init() not covered by tools/globalwrites/allow.txt: "
-                                         "the hypothesis of C15_noninterference (no step writes a global) is no longer discharged; "
+                               "broken": "write to a package-level variable outside init() not covered by tools/globalwrites/allow.txt"
+                                         + (" (through a local alias loaded from it in the same function)" if w["kind"].startswith("alias-") else "")
+                                         + ": the hypothesis of C15_noninterference (no step writes a global) is no longer discharged; "
                                          "theorem C15_globals_readonly fails",
-                               "site": "%s:%d" % (w["file"], w["line"]), "variable": w["var"], "operation": w["kind"] + " " + w["detail"],
-                               "function": w["func"],
-                               "failing_inputs_found_by_runtime_streams": runtime,
-                               "how_to_replay": "cd /verif/tools/globalwrites && go run . -repo /repo -allow allow.txt"},
-                              name="globalwrite-%s-%d" % (w["file"].replace("/", "_"), w["line"]),
-                              no_input=not runtime)
+                               "site": site(w), "variable": w["var"], "operation": w["kind"] + " " + w["detail"],
+                               "function": w["func"], "failing_inputs_found_by_runtime_streams": runtime, "how_to_replay": replay},
+                              name="globalwrite-%s-%d" % (w["file"].replace("/", "_"), w["line"]), no_input=not runtime)
+            for w in bad_esc[:6]:
+                rep.violation({"property": "C15",
+                               "broken": "reference-carrying data of a package-level variable is handed out (%s %s) at a site no reviewed line of "
+                                         "tools/globalwrites/allow.txt covers: whoever holds it can write into state shared by all renders "
+                                         "(e.g. a per-render cache replaced by a package-level one); theorem C15_escaping_globals_reviewed fails"
+                                         % (w["kind"], w["detail"]),
+                               "site": site(w), "variable": w["var"], "function": w["func"],
+                               "failing_inputs_found_by_runtime_streams": runtime, "how_to_replay": replay},
+                              name="globalescape-%s-%d" % (w["file"].replace("/", "_"), w["line"]), no_input=not runtime)
+            for w in bad_t[:6]:
+                rep.violation({"property": "C15",
+                               "broken": "store through a reference (%s) into an object of type %s, which is reachable from the package-level variable %s "
+                                         "(and from every value shared like it: declared values of a stylesheet, parsed dictionaries), in a function "
+                                         "no reviewed line covers: the store may hit data shared between elements / renders; "
+                                         "theorem C15_stores_into_shared_types_reviewed fails" % (w["op"], w["type"], w["via"]),
+                               "site": site(w), "function": w["func"],
+                               "failing_inputs_found_by_runtime_streams": runtime, "how_to_replay": replay},
+                              name="sharedstore-%s-%d" % (w["file"].replace("/", "_"), w["line"]), no_input=not runtime)
+            for w in bad_m[:6]:
+                rep.violation({"property": "C15",
+                               "broken": "range over a Go map (%s, body shape `%s`) that is neither a modelled site nor reviewed as order-insensitive: "
+                                         "the random iteration order may reach the output; theorem C15_map_ranges_reviewed fails" % (w["type"], w["shape"]),
+                               "site": site(w), "function": w["func"],
+                               "failing_inputs_found_by_runtime_streams": runtime, "how_to_replay": replay},
+                              name="maprange-%s-%d" % (w["file"].replace("/", "_"), w["line"]), no_input=not runtime)
             return orig_finish(level, coverage, assumptions)
         rep.finish = finish
 
@@ -110,14 +148,14 @@ SPEC = {
     "pre": pre,
     "harness_timeout": 6000,
     "trusted_base": [
-        "tools/globalwrites is a SYNTACTIC inventory (go/parser scope resolution): writes through aliases (a global map/slice/pointer passed to or returned from a function and mutated there, e.g. the in-place computed-value write fixed by the backgroundImage commit) are not seen; init() bodies and helpers called only from init() are not distinguished; the link between `readonly` in Draw/Determinism.v and this list is by reading, not by proof",
-        "tools/globalwrites/allow.txt (24 reviewed lines: log.Logger, regexp.Regexp, strings.Replacer are documented goroutine-safe; the hyphenation cache is mutex-protected and stores a pure function of embedded data)",
+        "tools/globalwrites: (1) SYNTACTIC inventory of writes rooted at a package-level variable (go/parser); (2) TYPED inventories (go/types over `go list -export` of the harness module): stores through a LOCAL alias loaded from a global in the same function, flow-insensitive (alias-*), every site where reference-carrying data of a global leaves the pure-read position (escapes), every store through a reference into an object whose static type is reachable from a global's type unless the object is created in the same function (tbaa), every range over a map. RESIDUAL BLIND SPOT: a reference into shared data that crosses a function boundary (parameter, field, return value) and is then written through an object whose static type is NOT attributable -- unnamed slices/maps/pointers of basic element type ([]string, []byte, map[string]Float, *float64), interface{} / non-module interfaces, closures' captured variables, reflection, unsafe, append into spare capacity of a shared backing array -- or inside a function the allow-list already covers for that (type, operation) (e.g. a NEW caller passing a shared map to the allowed setter Properties.SetX other than directly on the global); init() bodies and helpers called only from init() are not distinguished; the link between `readonly`/`benign` in Draw/Determinism.v and these lists is by reading, not by proof",
+        "tools/globalwrites/allow.txt (180 reviewed lines, each with its justification: log.Logger, regexp.Regexp, strings.Replacer are documented goroutine-safe; the hyphenation cache is mutex-protected and stores a pure function of embedded data (C15_memo_cache_transparent); per (variable, how, callee) for escapes, per (type, operation, function) for stores, per (function, map type, body shape) for map ranges)",
         "the trace digest is SHA-256 truncated to 64 bits per section (a collision would hide a difference)",
-        "recording backend verifharness/vlib/render (what it records is the observable); fonts Ahem + weasyprint.otf from /repo/resources_test; pango engine for 5 of 6 documents, go-text for the rest",
+        "recording backend verifharness/vlib/render (what it records is the observable); fonts Ahem + weasyprint.otf from /repo/resources_test (also as @font-face files); pango engine for 5 of 6 documents, go-text for the rest",
         "Go race detector (dynamic: reports only races that occur on the executed schedules)",
         "/repo hook html/layout/verif_export_c15.go (VerifBrokenMapRun drives the unexported brokenOutOfFlowMap)",
-        "C15_resume_stacks_single_key covers composite literals, make() and conversions of tree.ResumeStack; that no code adds a key by an index store (stack[k] = v) is by grep, not by the translator (it has no types)",
-        "external functions of the site models are Section variables: computedFromCascaded, GetAnchor, ParseAgain's text, floatLayout/absoluteBoxLayout (`place`); sort.Strings is assumed to sort",
+        "C15_resume_stacks_single_key covers composite literals, make() and conversions of tree.ResumeStack; that no code adds a key by an index store (stack[k] = v) is by grep, not by the translator",
+        "external functions of the site models are Section variables: computedFromCascaded, GetAnchor, ParseAgain's text, floatLayout/absoluteBoxLayout (`place`); sort.Strings is assumed to sort; the mutex of dictionariesCache is modelled as atomic steps",
     ],
     "not_modelled": [
         "data-race freedom itself (a memory-model property): covered only by the -race runs, labelled runtime evidence",
@@ -134,19 +172,19 @@ SPEC = {
               "8": "ResumeStack.Unpack returned something that is not an entry of the stack",
               "9": "brokenOutOfFlowMap.values() differs from the insertion-ordered model"},
     "theorems_for_kind": {
-        "repeat": "C15_site_perm_invariant_* (every modelled map-iteration site is permutation-invariant): a render is a function of its input",
+        "repeat": "C15_site_perm_invariant_* (every modelled map-iteration site is permutation-invariant; the others: C15_map_ranges_reviewed) and C15_sequential_is_alone (the same document again): a render is a function of its input",
         "fresh-process": "C15_site_perm_invariant_* (map iteration order is re-randomised per process)",
-        "concurrent": "C15_noninterference (under C15_globals_readonly)",
-        "history": "C15_sequential_is_alone (under C15_globals_readonly)",
+        "concurrent": "C15_noninterference (under C15_globals_readonly) / C15_benign_noninterference",
+        "history": "C15_sequential_is_alone (under C15_globals_readonly) / C15_benign_sequential_is_alone + C15_memo_cache_transparent (the hyphenation cache); refuted shapes: C15_ratio_cache_shared_refuted, C15_shared_pointer_inplace_refuted",
         "anchors": "C15_site_perm_invariant_anchors / C15_anchors_sorted",
         "race": "hypothesis of C15_noninterference: no step writes shared state (runtime evidence; no Gallina counterpart)",
         "unpack": "C15_unpack_result_is_an_entry / C15_site_perm_invariant_unpack_single",
         "omap": "C15_ordered_map_dict_semantics / C15_site_perm_invariant_brokenOutOfFlow",
     },
-    "rule": "corpus/C15/*.json first, then SplitMix64-seeded paginated documents (many ids per page, internal/external/dangling links, ::before/::after/::marker, floats and abspos broken across pages, counters, target-counter/target-text, string-set, running elements, bookmarks, inline SVG with many attributes, hyphens:auto in 4 languages, tables, flex, columns, data-URL PNG/SVG images, gradients with em stops from a pool of user stylesheets parsed once per process and shared between renders); every document: 5 renders in one process, 2-3 fresh processes with different predecessors, 1 concurrent render in a batch of 8, sequential renders late in the harness process; plus Unpack calls and random histories on brokenOutOfFlowMap; non-trivial = document renders with > 50 backend events / multi-op history; distinct by document and comparison kind",
+    "rule": "corpus/C15/*.json first, then SplitMix64-seeded paginated documents interleaved with table probes. Documents: many ids per page, internal/external/dangling links, ::before/::after/::marker, floats and abspos broken across pages, counters, target-counter/target-text, string-set, running elements, bookmarks, inline SVG, tables, flex, columns, CSS grid (areas, spans, fr, named lines), data-URL and file images (image cache), hyphens:auto in every language that has a dictionary with words DERIVED FROM THE DICTIONARY'S PATTERNS (non-standard patterns of hu/de/af/ro/eo/sq/mn/te/zu included) plus natural words, quotes:auto with language tags that are not keys of the table, counter styles (UA and @counter-style, extends chains, cycles), the full HTML5 UA stylesheet with presentational hints, @font-face rules giving the same family name to different font files in different documents with lengths in ex/ch/rem, invalid CSS (logger); user stylesheets from a pool that contains one declaration per computed-value function with element-dependent values (em/ex/ch/%/currentColor/attr()/counters), parsed ONCE per process and shared between renders like the UA sheets. Probes: hyphenation of pattern-derived words for every dictionary, every predefined counter style over a value range, GetLangQuotes over language tags. Every document and probe: 5 renders in a row + once more after the others in one process, first render of 2 other fresh processes with different predecessors, alone in a fresh process, concurrently in a batch of 8, at the end of the harness process after everything else; plus Unpack calls and random histories on brokenOutOfFlowMap; race binary on corpus x8, probes x4 and batches grouped by shared stylesheet; non-trivial = document renders with > 50 backend events / multi-op history; distinct by document and comparison kind",
 }
 MANIFEST = {
-    "text": "Coq theorems: permutation-invariance of each modelled Go-map iteration site (anchors per page after sort = canonical-order lemma; pseudo-element styles, SVG attribute cascade, string-set/bookmark pass via a commutation lemma for folds over independent keys; insertion-ordered brokenOutOfFlow map), refutation witnesses for the two sites that were order-sensitive on the pinned tree (repaired in /repo) and for Unpack on multi-key stacks, and non-interference of N interleaved renders under the hypothesis that no step writes a global, which a source translator re-discharges syntactically on every run (globals_readonly by vm_compute over the generated write-site list). Tie: full backend traces of generated documents compared across repeats, fresh processes, concurrent-vs-sequential and histories; anchors and ordered-map histories evaluated against the model; race-detector runs.",
-    "note": "Data-race freedom is runtime evidence only (go -race on executed schedules). The global-write inventory is syntactic (aliasing not seen; allow-list reviewed by hand). Sites not modelled are covered only by trace comparison. External functions (computed values, float placement, counter text) are Section variables.",
+    "text": "Coq theorems: permutation-invariance of each modelled Go-map iteration site (anchors per page after sort = canonical-order lemma; pseudo-element styles, SVG attribute cascade, string-set/bookmark pass via a commutation lemma for folds over independent keys; insertion-ordered brokenOutOfFlow map), refutation witnesses for the two sites that were order-sensitive on the pinned tree (repaired in /repo) and for Unpack on multi-key stacks, and non-interference of N interleaved renders under the hypothesis that no step writes a global -- or writes it benignly: a memo cache of a pure function is proved transparent under every schedule and history (the hyphenation cache), while a cache whose value depends on the render (ex/ch ratios) and a store through a pointer into a shared table are refuted. A source translator (go/parser + go/types) re-discharges the hypotheses on every run by vm_compute over generated lists: writes to globals incl. through local aliases, escapes of reference-carrying global data, stores into types reachable from globals, ranges over maps, each against a reviewed allow-list. Tie: full backend traces of generated documents compared across repeats, fresh processes, concurrent-vs-sequential and histories; anchors and ordered-map histories evaluated against the model; race-detector runs.",
+    "note": "Data-race freedom is runtime evidence only (go -race on executed schedules). The inventories are static over-approximations with hand-reviewed allow-lists; a reference crossing a function boundary and written through a non-attributable type (unnamed slices/maps of basic elements, interface{}, closures) is not seen (trusted_base states the blind spot). Sites not modelled are covered only by trace comparison. External functions (computed values, float placement, counter text) are Section variables.",
     "technique": "Coq proof over executable models + source translator (global write inventory) + differential trace comparison of the Go implementation (vm_compute check of digests/anchors/ordered-map) + go race detector",
 }
